@@ -257,6 +257,17 @@ def drive(ip, loc, max_polls=12):
     raise OutOfBound('future not ready after %d polls' % max_polls)
 
 
+class TimeoutM(Model):
+    """tokio::time::timeout(d, fut): Ok(output) if fut completes first, Err(Elapsed) once the timer (a fresh one, started now) fires"""
+
+    def __init__(self, fut, d):
+        self.inner = Cell(fut, 'timeout-inner')
+        self.timer = Cell(Leaf('sleep', d), 'timeout-timer')
+
+    def ite(self, c, o):
+        return self
+
+
 class SharedM(Model):
     """futures::future::Shared<F>: clones poll one underlying future; its output is kept for all of them"""
 
@@ -271,6 +282,14 @@ class SharedM(Model):
 def poll_future(ip, loc):
     """Future::poll on whatever lives at loc"""
     v = read_loc(loc)
+    if isinstance(v, TimeoutM):
+        r = yield from poll_future(ip, Loc(v.inner))
+        if r.discr == 0:
+            return ready(ok(r.payload[0][0]))
+        t = yield from poll_future(ip, Loc(v.timer))
+        if t.discr == 0:
+            return ready(err(Opaque('Elapsed')))
+        return PENDING
     if isinstance(v, SharedM):
         if v.state.v is not None:
             return ready(v.state.v[0])
@@ -459,6 +478,11 @@ def _install_base(ctx):
     def tokio_spawn(ip, pc, args, dt):
         ip.path.effect('spawn', args[0])
         return Opaque('JoinHandle')
+
+    @M.reg('time::timeout', 'tokio::time::timeout', 'timeout::timeout')
+    def time_timeout(ip, pc, args, dt):
+        ip.path.effect('sleep', args[0])
+        return TimeoutM(args[1], args[0])
 
     @M.reg('time::sleep', 'time::sleep_until', 'tokio::time::sleep', 'sleep::sleep', 'sleep::sleep_until')
     def sleep(ip, pc, args, dt):
